@@ -75,6 +75,8 @@ class Stats:
         self.sweep_functions = set()
         self.lock_yields = 0
         self.aged_runs = 0
+        self.capacity_runs = 0
+        self.capacity_found = 0
         self.aged_ops = 0
 
     def add(self, spec, res):
@@ -426,6 +428,10 @@ def focus_sweep(seed, stats, found, ref, probes, pool, t_end, per_class, reps, w
         stats.sweep_runs += 1
         if spec.get('directed'):
             stats.directed_runs += 1
+        if res.get('pre_fill'):
+            stats.capacity_runs += 1
+            if any(x is not None for x in (res['pre_fill'].get('capacity') or [])):
+                stats.capacity_found += 1
         if res.get('focus'):
             stats.sweep_functions.add(tuple(res['focus'][:2]))
         if res['mismatches']:
@@ -463,6 +469,7 @@ def focus_sweep(seed, stats, found, ref, probes, pool, t_end, per_class, reps, w
     # level data and the run's shared renderer / catalog objects) get dense pre-emption *together*, so that the order of
     # conflicting writes and reads of two clients is shuffled; plus runs with aborts inside them
     directed = 0
+    deferred = []      # specs on re-sampled scenarios: their references are computed in one go below
     for bi, b in enumerate(bases):
         wf = wfs.get(bi)
         if not wf:
@@ -481,8 +488,6 @@ def focus_sweep(seed, stats, found, ref, probes, pool, t_end, per_class, reps, w
             stats.novel_state.update(p_ for f in novel for p_ in f[3] if not _known_state(p_))
         for r in range(n_runs):
             bb = b if r < wf_runs else gen.gen_sweep_base(b['seed'] + 7 * (1 + r // 4), c, ref, *b['families'][:2])
-            if bb is not b:
-                ref.ensure([op for cl in bb['clients'] for op in cl])
             spec = _copy.deepcopy(bb)
             spec['strategy'] = {'kind': 'focus', 'fns': fns, 'p': (0.05, 0.15, 0.4, 0.1)[r % 4]}
             if novel and r % 4 == 1:
@@ -494,8 +499,7 @@ def focus_sweep(seed, stats, found, ref, probes, pool, t_end, per_class, reps, w
                 spec['novel'] = True
             if r % 4 == 3:
                 spec['focus_faults'] = [[r % len(b['clients']), 1 + (r * 7) % 13, 'abort']]
-            spec = gen.attach(spec, ref, probes)
-            jobs.append((spec['hashseed'], spec))
+            deferred.append(spec)
             directed += 1
     # state -> inputs: for some kinds of process-wide state only particular inputs can show a difference.  The interpreter's
     # recursion limit matters to deeply nested statements only, so functions seen changing it get their directed runs on
@@ -512,16 +516,49 @@ def focus_sweep(seed, stats, found, ref, probes, pool, t_end, per_class, reps, w
         fns = sorted(fset.values())
         for r in range(wf_runs * 12):
             bb = gen.gen_sweep_base(seed * 1_000_000 + 950_000 + r // 2, c, ref, fam_names[r % len(fam_names)])
-            ref.ensure([op for cl in bb['clients'] for op in cl])
             spec = _copy.deepcopy(bb)
             spec['strategy'] = {'kind': 'focus', 'fns': fns, 'p': (0.15, 0.4, 0.1, 0.3)[r % 4]}
             spec['sched_seed'] = (bb['sched_seed'] + 15485863 * (r + 1)) & 0x3FFFFFFF
             spec['directed'] = True
             spec['novel'] = True
             spec['state_inputs'] = prefix
-            spec = gen.attach(spec, ref, probes)
-            jobs.append((spec['hashseed'], spec))
+            deferred.append(spec)
             directed += 1
+    # state -> capacity: new module / class level state may be a table with a capacity (an LRU, a memo that is cleared when
+    # full).  Such state behaves differently only at the edge of its capacity, which a handful of ops never reaches: these runs
+    # first age the process (child.pre_fill: fresh names / constants until the watched containers are `delta` entries below
+    # the capacity they reveal by shrinking or by no longer growing), then let the clients meet with dense pre-emption in the
+    # functions that write the state.  Nothing of this runs on a tree without new state.
+    cap_paths, cap_fns, cap_fams = set(), {}, []
+    for bi, wf in wfs.items():
+        for f in wf.get('by_fn', []):
+            nov = [p_ for p_ in f[3] if not _known_state(p_) and not p_.startswith(('interp:', 'tree[', 'renderer[', 'catalogs'))]
+            if nov:
+                cap_paths.update(nov)
+                cap_fns[tuple(f[:3])] = list(f[:3])
+                for fam_ in bases[bi]['families'][:1]:
+                    if fam_ not in cap_fams:
+                        cap_fams.append(fam_)
+    if cap_paths:
+        fns = sorted(cap_fns.values())
+        fam_cycle = (cap_fams[:3] + [f_ for f_ in ('wide_inputs',) if f_ in c['families']]) or ['wide_inputs']
+        for r in range(wf_runs * 8):
+            bb = gen.gen_sweep_base(seed * 1_000_000 + 970_000 + r // 2, c, ref, fam_cycle[r % len(fam_cycle)])
+            spec = _copy.deepcopy(bb)
+            spec['strategy'] = {'kind': 'focus', 'fns': fns, 'p': (0.15, 0.4, 0.1, 0.3)[r % 4]}
+            spec['sched_seed'] = (bb['sched_seed'] + 32452843 * (r + 1)) & 0x3FFFFFFF
+            spec['directed'] = True
+            spec['novel'] = True
+            spec['state_inputs'] = 'capacity'
+            spec['pre_fill'] = {'paths': sorted(cap_paths), 'delta': (0, 1, 2, 3, 5, 8, 13)[r % 7], 'tag': 'q%d' % (r % 3)}
+            deferred.append(spec)
+            directed += 1
+    if deferred:
+        ref.ensure([op for sp_ in deferred for cl in sp_['clients'] for op in cl])
+        check_twice(ref, pool, found)
+        for sp_ in deferred:
+            sp_ = gen.attach(sp_, ref, probes)
+            jobs.append((sp_['hashseed'], sp_))
     # runs directed at state that is not known from the pinned tree go first, everything else in random order
     rng.shuffle(jobs)
     jobs.sort(key=lambda j: 0 if j[1].get('state_inputs') else (1 if j[1].get('novel') else 2))
@@ -728,6 +765,8 @@ def main(tier='quick', seed=0, repo=None):
             'family_histories (all ops of one family, shuffled, twice, one process)': stats.famhist_runs,
             'tree_histories (a few statements, each rendered under every dialect name on one shared tree object)': stats.treehist_runs,
             's1_aged_process_runs (a single-threaded prehistory before the clients start)': stats.aged_runs, 's1_aged_prehistory_ops_executed': stats.aged_ops,
+            'capacity_directed_runs (process aged to the edge of the capacity of new shared state; 0 on a tree without new state)': stats.capacity_runs,
+            'capacity_directed_runs_that_found_a_capacity': stats.capacity_found,
             's2_long_histories': stats.long_runs, 's2_long_ops_executed': stats.long_ops,
             's2_long_ordered_pairs (earlier op, later op) in one process': stats.long_pairs,
             'focus_sweep_runs': stats.sweep_runs, 'focus_sweep_distinct_functions': len(stats.sweep_functions),
